@@ -1056,10 +1056,11 @@ hwloc__xml_import_object(hwloc_topology_t topology,
 	break;
       }
     }
-    /* no need to reorder memory children as long as there are no intermediate memory objects
-     * that could cause reordering when filtered-out.
-     */
   }
+
+  if (!ignored && childrengotignored && obj->memory_first_child)
+    /* memory children of filtered-out children were appended after ours, keep them ordered by nodeset */
+    hwloc__reorder_memory_children(obj);
 
   return state->global->close_tag(state);
 
